@@ -1,3 +1,4 @@
+import TantivyModel.Proofs.SSTable.MergeProofs
 import TantivyModel.Proofs.SSTable.Refine
 import TantivyModel.Proofs.SSTable.Writer
 import TantivyModel.Proofs.SSTable.Stream
@@ -316,8 +317,59 @@ theorem C15_inverted_range_counterexample :
 
 /- Still to prove (full statements; the harness compares these operations on every run):
    C15_prefix_range           : isPrefixOf p k ↔ matchLo (prefixBounds p).1 k ∧ matchHi (prefixBounds p).2 k
-   C15_merge                  : (∀ m ∈ ms, SortedMap m) → kwayMerge comb ms = mergeSpec comb ms
-                                  ∧ ordinal tables total and strictly monotone -/
+   C15_merge_round_tables     : the per-round tables `kmergeOrds` (mirror of TermMerger::advance +
+                                matching_segments) list, for input i, exactly the pairs
+                                (new ordinal, old ordinal) of `ordMap` (C15_term_ordinal_remap) -/
+
+example : kwayMerge List.sum [[(([1] : Key), 1), ([3], 3)], [([2], 20), ([3], 30)], []]
+    = [([1], 1), ([2], 20), ([3], 33)] := by decide
+example : ordMap [(([2] : Key), 20), ([3], 30)] (mergeSpec List.sum [[(([1] : Key), 1), ([3], 3)], [([2], 20), ([3], 30)]])
+    = [some 1, some 2] := by decide
+
+/-! ## merge -/
+
+/-- the k-way merge (`merge_sstable`: repeatedly the minimal head key, popped from every input that
+holds it, values combined) of any number of sorted inputs IS the specification merge:
+its keys are the sorted union of the input keys (strictly increasing, member iff member of some
+input), and the value of a key is `comb` of the values of the inputs holding it, in input order -/
+theorem C15_merge {V} (comb : List V → V) (ms : List (Assoc V)) (hs : ∀ m ∈ ms, SortedMap m) :
+    kwayMerge comb ms = mergeSpec comb ms ∧
+    SortedMap (mergeSpec comb ms) ∧
+    (∀ k, k ∈ keys (mergeSpec comb ms) ↔ ∃ m ∈ ms, k ∈ keys m) ∧
+    (∀ e ∈ mergeSpec comb ms, e.2 = comb (ms.filterMap (fun m => get m e.1))) := by
+  refine ⟨kmerge_eq comb _ ms hs (Nat.le_refl _), ?_, ?_, ?_⟩
+  · unfold SortedMap; rw [keys_mergeSpec]; exact unionKeys_sorted _
+  · intro k
+    rw [keys_mergeSpec, mem_unionKeys]
+    constructor
+    · rintro ⟨l, hl, hk⟩
+      obtain ⟨m, hm, rfl⟩ := List.mem_map.mp hl
+      exact ⟨m, hm, hk⟩
+    · rintro ⟨m, hm, hk⟩
+      exact ⟨keys m, List.mem_map_of_mem hm, hk⟩
+  · intro e he
+    unfold mergeSpec at he
+    obtain ⟨k, _, rfl⟩ := List.mem_map.mp he
+    rfl
+
+/-- old→new term-ordinal tables of a merge (what `TermMerger` / `merge_dict_column` hand to the
+column merge of C08, and what segment merges use to remap term ordinals): for every input, the
+table is total, maps old ordinal `i` to the new ordinal of the SAME key, and is strictly
+increasing (so order- and distinctness-preserving); jointly the tables cover every merged key -/
+theorem C15_term_ordinal_remap {V} (comb : List V → V) (ms : List (Assoc V))
+    (hs : ∀ m ∈ ms, SortedMap m) (m : Assoc V) (hm : m ∈ ms) :
+    ordMap m (mergeSpec comb ms) = m.map (fun e => some (ordOf (keys (mergeSpec comb ms)) e.1)) ∧
+    (∀ e ∈ m, (keys (mergeSpec comb ms))[ordOf (keys (mergeSpec comb ms)) e.1]? = some e.1) ∧
+    (m.map (fun e => ordOf (keys (mergeSpec comb ms)) e.1)).Pairwise (· < ·) ∧
+    (∀ k ∈ keys (mergeSpec comb ms), ∃ m' ∈ ms, ∃ e ∈ m', e.1 = k) := by
+  obtain ⟨h1, h2, h3⟩ := ordMap_spec comb ms hs m hm
+  refine ⟨h1, h2, h3, ?_⟩
+  intro k hk
+  rw [keys_mergeSpec, mem_unionKeys] at hk
+  obtain ⟨l, hl, hkl⟩ := hk
+  obtain ⟨m', hm', rfl⟩ := List.mem_map.mp hl
+  obtain ⟨e, he, rfl⟩ := List.mem_map.mp hkl
+  exact ⟨m', hm', e, he, rfl⟩
 
 /-! ## insertion order (DESIGN §8, F6) -/
 
